@@ -82,3 +82,9 @@ Definition bond_step (dims : list nat) (o : bond_op) : list nat :=
   | SplitAt i k => set_nth dims i k
   | ShrinkAt i d => set_nth dims i (Nat.min d (nth i dims 0))
   end.
+
+(* MPS.truncate(threshold, cap): which bonds are re-split, in which order.  (flipped?, i): two_site_svd on tensors
+   (i, i+1) of the current (possibly flipped) chain; c = orthogonality centre, L = number of sites *)
+Definition truncate_calls (L c : nat) : list (bool * nat) :=
+  if L =? 1 then [] else map (fun i => (false, i)) (seq 0 c) ++ map (fun i => (true, i)) (seq 0 (L - 1 - c)).
+Definition bond_of (L : nat) (call : bool * nat) : nat := if fst call then L - 2 - snd call else snd call.
